@@ -392,7 +392,12 @@ where
     // select the same member / fail the same way, consume the stream identically and call the wrapped value once
     {
         type Erased = dyn DynSelector<Pop> + Send + Sync;
-        let levels = 2 + (cx.base.state_fingerprint().2 % 99) as usize;
+        // (one in 32: more than a thousand levels — a structure assembled at run time is as deep as its data)
+        let fp = cx.base.state_fingerprint().2;
+        let levels = if fp % 32 == 7 { 1000 + ((fp / 32) % 2000) as usize } else { 2 + (fp % 99) as usize };
+        if levels > 1024 {
+            obs.hit("probe.erased-selector-wrapped-more-than-1024-times");
+        }
         let b = cx.calls.as_ref().map_or(0, |c| c.load(Ordering::Relaxed));
         let mut r = cx.base.fork();
         let got = catch(|| {
@@ -547,6 +552,32 @@ where
         let res = w.apply(input.clone(), &mut r);
         observe_boxed(res, |x| format!("{x:?}"), &r)
     });
+    // an erased operator is an operator again: wrapped many times over (Box and Arc alternating; one in 16: more than
+    // a thousand levels) it must behave as the concrete value does
+    {
+        type Erased<I, O> = dyn DynOperator<I, BoxErr, Output = O> + Send + Sync;
+        let fp = cx.base.state_fingerprint().2;
+        let levels = if fp % 16 == 3 { 1000 + ((fp / 16) % 2000) as usize } else { 2 + (fp % 99) as usize };
+        if levels > 1024 {
+            obs.hit("probe.erased-operator-wrapped-more-than-1024-times");
+        }
+        let b = cx.calls.as_ref().map_or(0, |c| c.load(Ordering::Relaxed));
+        let mut r = cx.base.fork();
+        let got = catch(|| {
+            let mut wrapped: Box<Erased<I, O>> = Box::new(mk());
+            for level in 1..levels {
+                wrapped = if level % 2 == 0 {
+                    Box::new(wrapped)
+                } else {
+                    let shared: Arc<Erased<I, O>> = Arc::from(wrapped);
+                    Box::new(shared)
+                };
+            }
+            let res = wrapped.apply(input.clone(), &mut r);
+            observe_boxed(res, |x| format!("{x:?}"), &r)
+        });
+        cx.compare("Box/Arc nested", "", got, b);
+    }
     obs.count("steps", cx.flavours_run);
     cx.out
 }
